@@ -193,6 +193,11 @@ INSIDE = {
     "braced": ("@a{k, t = {", "}, u = 1}"),
     "quoted": ("@a{k, t = \"", "\", u = 1}"),
     "key": ("@a{", ", t = 1}"),
+    # the whole body of a block / the tokens of a block head (a @string without '=', an entry without a key, ...)
+    "string-body": ("@string{", "}\n@a{k}"),
+    "string-eq": ("@string{s", "= {v}}\n"),
+    "entry-body": ("@a{", "}\n@string{s = {v}}"),
+    "field-eq": ("@a{k, t", "= 1}\n@b{j}"),
 }
 
 
@@ -203,7 +208,7 @@ def main():
     PUMP = 4 if chk.tier == "quick" else 16
     chk.bounds = {"alphabet": SIGMA_S, "pure garbage: every text of length": f"0..{LG}",
                   "templates": f"B1 + X + B2 / B1 + X with B1 in {sorted(BLOCKS)}, B2 in entry/string, X every text of length 1..{LT}",
-                  "inside bodies": f"X of length 1..{LI} inside the body of @comment / @preamble / @string / a field value (bare, braced, quoted) / the key position",
+                  "inside bodies": f"X of length 1..{LI} inside the body of @comment / @preamble / @string / a field value (bare, braced, quoted) / the key position / as the whole body of a @string or an entry / around the = of a @string or a field",
                   "string names": "documents of 2-4 @string / entry blocks whose @string names and bare references are symbolic over {a, A}",
                   "pumped witnesses": "every execution path of the texts of length 3: up to 4 (quick) / 16 (thorough) distinct solver witnesses per path, each replayed on the real code with every character and every segment of 2-4 characters repeated 2000 times, under a 20 s CPU-time watchdog",
                   "recursion bound": f"no repo function more than {MAXREC} times on the stack", "step limit per world": 2_000_000}
